@@ -694,7 +694,8 @@ func (p *Parser) parseBuffer(buf []byte, last bool) (err error) {
 			if tf == nil {
 				return p.newError(off, "unexpected character '%c'", b)
 			}
-			v := tf(p.stack[start:]...)
+			// The function gets its own copy of the arguments, it may keep them.
+			v := tf(append([]any(nil), p.stack[start:]...)...)
 			p.stack = p.stack[0 : start-1]
 			_ = p.add(v, off)
 			p.mode = valueMap
